@@ -4,15 +4,18 @@ import glob, json, os, re
 V = os.path.dirname(os.path.dirname(os.path.abspath(__file__)))
 rows = ['| seeded change | property | what it needs to manifest | reported by (property: rules) | when it arrived |', '|---|---|---|---|---|']
 n = hit = 0
+arr = {'caught': 0, 'missed': 0, 'other': 0}
 for d in sorted(glob.glob(os.path.join(V, 'seeded', '*'))):
     m = json.load(open(d + '/meta.json'))
     det = m.get('detected_by') or []
     own = [x for x in det if x['property'] == m['property']]
     n += 1; hit += 1 if own else 0
+    oa = (m.get('on_arrival') or '').lower()
+    arr['caught' if oa.startswith('caught') else 'missed' if oa.startswith('missed') else 'other'] += 1
     rep = '; '.join('%s: %s' % (x['property'], ', '.join(x['rules'])) for x in det) or '**not reported**'
     rows.append('| `%s` | %s | %s | %s | %s |' % (m['id'], m['property'], m['needs_to_manifest'].replace('|', '/'), rep, m.get('on_arrival', '')))
 rows.append('')
-rows.append('%d of %d seeded changes are reported by the check of the property they were written against (most by several checks).' % (hit, n))
+rows.append('%d of %d seeded changes are reported by the check of the property they were written against (most by several checks).  When they arrived: %d were reported by that check as it stood, %d by no check at all (each led to a new rule, witness or oracle - last column), %d only by the checks of other properties or with exit 2 (rule sharing / engine precedence was then corrected).' % (hit, n, arr['caught'], arr['missed'], arr['other']))
 s = open(os.path.join(V, 'DESIGN.md')).read()
 s = re.sub(r'<!-- SEEDTABLE -->.*?<!-- /SEEDTABLE -->', '<!-- SEEDTABLE -->\n' + '\n'.join(rows) + '\n<!-- /SEEDTABLE -->', s, flags=re.S)
 open(os.path.join(V, 'DESIGN.md'), 'w').write(s)
